@@ -80,7 +80,7 @@ Theorem dispatch_inv : forall cx g s e s' res tags,
   inv g s -> ctx_ok cx -> tcp_dispatch cx s e = Ok (s', res, tags) ->
   exists g1 s1 g',
     (g1 = g \/ g1 = g_rewind g) /\ inv g1 s1 /\ frame s s1 /\
-    inv g' s' /\ ghost_rel g g' /\
+    inv g' s' /\ ghost_rel g g' /\ (frame s s' \/ s' = tcp_reset s) /\
     match res with
     | DNothing => True
     | DSent p =>
@@ -95,11 +95,12 @@ Proof.
   intros cx g s e s' res tags Hinv Hcx H. unfold tcp_dispatch in H.
   destruct (s_tuple s) as [t|] eqn:Et.
   2: { injection H as <- <- <-. exists g, s, g. split; [auto|]. split; [exact Hinv|].
-       split; [apply frame_refl|]. split; [exact Hinv|]. split; [left; apply same_epoch_refl|exact I]. }
+       split; [apply frame_refl|]. split; [exact Hinv|]. split; [left; apply same_epoch_refl|].
+       split; [left; apply frame_refl|exact I]. }
   destruct (negb (tu_local_addr t =? cx_addr cx)).
   { injection H as <- <- <-. exists g, s, ghost0. split; [auto|]. split; [exact Hinv|].
     split; [apply frame_refl|]. split; [eapply reset_inv; exact Hinv|].
-    split; [right; unfold new_epoch, ghost0; cbn; auto|exact I]. }
+    split; [right; unfold new_epoch, ghost0; cbn; auto|]. split; [right; reflexivity|exact I]. }
   rewrite dtimers_unfold in H.
   set (s0 := if is_some (s_remote_last_ts s) then s else upd_remote_last_ts s (Some (cx_now cx))) in *.
   assert (Hinv0 : inv g s0).
@@ -115,7 +116,8 @@ Proof.
   destruct go; cbn [negb] in H.
   2: { injection H as <- <- <-. exists g1, s1, g1. split; [exact Hg1|]. split; [exact Hinv1|].
        split; [eapply frame_trans; eassumption|]. split; [exact Hinv1'|].
-       split; [left; exact Hrel1|exact I]. }
+       split; [left; exact Hrel1|].
+       split; [left; eapply frame_trans; [eapply frame_trans; eassumption|exact Hfr1']|exact I]. }
   specialize (Hgo eq_refl). subst s1'.
   destruct (tcp_dispatch_build cx s1 t) as [[[[[s2 orepr] zwp] ka] t3]| |] eqn:E3; cbn [obind] in H;
     try discriminate.
@@ -123,7 +125,7 @@ Proof.
   2: { injection H as <- <- <-. apply build_none in E3. subst s2.
        exists g1, s1, g1. split; [exact Hg1|]. split; [exact Hinv1|].
        split; [eapply frame_trans; eassumption|]. split; [exact Hinv1|].
-       split; [left; exact Hrel1|exact I]. }
+       split; [left; exact Hrel1|]. split; [left; eapply frame_trans; eassumption|exact I]. }
   destruct (build_spec _ _ _ _ _ _ _ _ _ Hinv1 Hcx E3) as (Hs2 & Hok).
   assert (Hinv2 : inv g1 s2).
   { destruct Hs2 as [->| ->]; [exact Hinv1|eapply inv_txv; [|exact Hinv1]; reflexivity]. }
@@ -140,12 +142,16 @@ Proof.
       unfold same_epoch. split; [congruence|]. split; [exists (m1 ++ m2); rewrite B2, A2, app_assoc; reflexivity|].
       split; [lia|]. split; [lia|]. intros G. destruct (A5 G) as (G1 & S1). destruct (B5 G1) as (G2 & S2).
       split; [exact G2|congruence].
-    + exists zwp, ka. split; [exact Hok|]. split; [reflexivity|]. split; [exact Hse|exact Hg'].
+    + split; [left; eapply frame_trans; [eapply frame_trans; eassumption|exact Hfr']|].
+      exists zwp, ka. split; [exact Hok|]. split; [reflexivity|]. split; [exact Hse|exact Hg'].
   - (* the device refused the frame: the socket stays as it was when the segment was built *)
     injection H as <- <- <-.
     exists g1, s1, g1. split; [exact Hg1|]. split; [exact Hinv1|].
     split; [eapply frame_trans; eassumption|]. split; [exact Hinv2|].
-    split; [left; exact Hrel1|]. exists zwp, ka. split; [exact Hok|]. split; reflexivity.
+    split; [left; exact Hrel1|].
+    split; [left; eapply frame_trans; [eapply frame_trans; eassumption|];
+            destruct Hs2 as [->| ->]; [apply frame_refl|unfold frame; fld; repeat split; auto]|].
+    exists zwp, ka. split; [exact Hok|]. split; reflexivity.
 Qed.
 
 (* ------------------------------------------------------------------------------------------ *)
